@@ -806,4 +806,508 @@ theorem repStep_spec {P : Nat} {eq wc : Adj} (hp : Pre eq wc) {s : Reps} (I : RI
     rw [(repStep_get P s x E W hxW z).2]
     split; simp; split; simp; split; simp; exact hz
 
+/-! ### the result dictionary of `propagate` has each key once -/
+
+theorem Res.keys_set (r : Res) (y : Nat) (v : List Nat × List Nat) :
+    (r.set y v).map (·.1) = if r.has y = true then r.map (·.1) else r.map (·.1) ++ [y] := by
+  unfold Res.set
+  by_cases h : r.has y = true
+  · simp only [h, if_true, List.map_map]
+    apply List.map_congr_left
+    rintro ⟨k, w⟩ _
+    simp only [Function.comp]
+    split <;> rfl
+  · simp [h]
+
+theorem Res.nodup_set {r : Res} (hn : (r.map (·.1)).Nodup) (y : Nat) (v : List Nat × List Nat) :
+    ((r.set y v).map (·.1)).Nodup := by
+  rw [Res.keys_set]
+  split
+  · exact hn
+  · rename_i h
+    have : y ∉ r.map (·.1) := fun hm => h ((Res.has_iff_mem r y).2 hm)
+    exact List.nodup_append.2 ⟨hn, by simp, by
+      intro a ha b hb; simp at hb; subst hb; exact fun e => this (e ▸ ha)⟩
+
+theorem Res.nodup_foldl_set (l : List Nat) (v : List Nat × List Nat) {r : Res} (hn : (r.map (·.1)).Nodup) :
+    ((l.foldl (fun r y => r.set y v) r).map (·.1)).Nodup := by
+  induction l generalizing r with
+  | nil => exact hn
+  | cons a l ih => exact ih (Res.nodup_set hn a v)
+
+theorem nodup_storeClass {r : Res} (hn : (r.map (·.1)).Nodup) (s : St) : ((storeClass r s).map (·.1)).Nodup := by
+  unfold storeClass
+  exact Res.nodup_foldl_set _ _ (Res.nodup_foldl_set _ _ hn)
+
+theorem nodup_resolveAll (eq wc : Adj) (xs : List Nat) {r r' : Res} (hn : (r.map (·.1)).Nodup)
+    (h : resolveAll eq wc xs r = .ok r') : (r'.map (·.1)).Nodup := by
+  induction xs generalizing r with
+  | nil => simp [resolveAll] at h; subst h; exact hn
+  | cons x xs ih =>
+    simp only [resolveAll] at h
+    split at h
+    · rename_i r1 h1
+      refine ih ?_ h
+      unfold resolve at h1
+      by_cases hh : r.has x = true
+      · simp [hh] at h1; subst h1; exact hn
+      · by_cases hb : classBad eq r (classOf eq wc x) = true
+        · simp [hh, hb] at h1
+        · simp [hh, hb] at h1; subst h1; exact nodup_storeClass hn _
+    · cases h
+
+theorem nodup_propagate {eq wc : Adj} {r : Res} (h : propagate eq wc = .ok r) : (r.map (·.1)).Nodup := by
+  unfold propagate at h
+  split at h
+  · cases h
+  · exact nodup_resolveAll eq wc _ (by simp) h
+
+theorem lookup_of_mem_nodup {β : Type} {l : List (Nat × β)} (hn : (l.map (·.1)).Nodup) {x : Nat} {v : β}
+    (h : (x, v) ∈ l) : l.lookup x = some v := by
+  induction l with
+  | nil => simp at h
+  | cons a l ih =>
+    obtain ⟨k, w⟩ := a
+    simp only [List.map_cons, List.nodup_cons] at hn
+    simp only [List.lookup_cons]
+    rcases List.mem_cons.1 h with h | h
+    · simp only [Prod.mk.injEq] at h
+      simp [h.1, h.2]
+    · have : x ≠ k := fun e => hn.1 (e ▸ List.mem_map.2 ⟨(x, v), h, rfl⟩)
+      have hb : (x == k) = false := by simpa using this
+      simp [hb, ih hn.2 h]
+
+/-- the loop of `get_reps` -/
+theorem getReps_loop {P : Nat} {eq wc : Adj} (hp : Pre eq wc) (l : List (Nat × List Nat × List Nat))
+    (hl : ∀ e ∈ l, e.1 ∈ keys eq ∧ (∀ y, y ∈ e.2.1 ↔ Reach eq wc e.1 false y) ∧
+      (∀ y, y ∈ e.2.2 ↔ Reach eq wc e.1 true y) ∧ ¬ Reach eq wc e.1 true e.1)
+    {s : Reps} (I : RInv P eq wc s) :
+    RInv P eq wc (l.foldl (repStep P) s) ∧
+    (∀ e ∈ l, (l.foldl (repStep P) s).eqRep.get e.1 ≠ none ∧ (l.foldl (repStep P) s).wcRep.get e.1 ≠ none) ∧
+    (∀ z, s.eqRep.get z ≠ none → (l.foldl (repStep P) s).eqRep.get z ≠ none) ∧
+    (∀ z, s.wcRep.get z ≠ none → (l.foldl (repStep P) s).wcRep.get z ≠ none) := by
+  induction l generalizing s with
+  | nil => exact ⟨I, by simp, fun _ h => h, fun _ h => h⟩
+  | cons a l ih =>
+    obtain ⟨x, E, W⟩ := a
+    obtain ⟨hx, hE, hW, hns⟩ := hl (x, E, W) List.mem_cons_self
+    obtain ⟨I1, hx1, hx2, m1, m2⟩ := repStep_spec hp I hx hE hW hns
+    obtain ⟨I2, h2, n1, n2⟩ := ih (fun e he => hl e (List.mem_cons_of_mem _ he)) I1
+    simp only [List.foldl_cons]
+    refine ⟨I2, ?_, fun z hz => n1 z (m1 z hz), fun z hz => n2 z (m2 z hz)⟩
+    intro e he
+    rcases List.mem_cons.1 he with rfl | he
+    · exact ⟨n1 _ hx1, n2 _ hx2⟩
+    · exact h2 e he
+
+theorem rinv_empty (P : Nat) (eq wc : Adj) : RInv P eq wc ⟨Tab.empty, Tab.empty⟩ :=
+  ⟨by intro y v h; simp [Tab.get_empty] at h, by intro y v h; simp [Tab.get_empty] at h⟩
+
+/-- what `get_reps` leaves in `eq_rep` / `wc_rep` -/
+theorem getReps_spec {P : Nat} {eq wc : Adj} {r : Res} (hp : Pre eq wc) (inv : OInv eq wc r)
+    (all : ∀ x ∈ keys eq, r.has x = true) (hn : (r.map (·.1)).Nodup)
+    (hns : ∀ x ∈ keys eq, ¬ Reach eq wc x true x) :
+    (∀ x ∈ keys eq, IsMin P (Reach eq wc x false) (repGet (getReps P r).eqRep x) ∧
+                   IsMin P (Reach eq wc x true) (repGet (getReps P r).wcRep x)) ∧
+    (∀ x, x ∉ keys eq → repGet (getReps P r).eqRep x = none ∧ repGet (getReps P r).wcRep x = none) := by
+  have hl : ∀ e ∈ r, e.1 ∈ keys eq ∧ (∀ y, y ∈ e.2.1 ↔ Reach eq wc e.1 false y) ∧
+      (∀ y, y ∈ e.2.2 ↔ Reach eq wc e.1 true y) ∧ ¬ Reach eq wc e.1 true e.1 := by
+    rintro ⟨x, E, W⟩ he
+    have hg : r.get x = some (E, W) := lookup_of_mem_nodup hn he
+    have hx : x ∈ keys eq := inv.isKey x (by rw [Res.has_eq, hg]; rfl)
+    obtain ⟨h1, h2⟩ := inv.exact x E W hg
+    exact ⟨hx, h1, h2, hns x hx⟩
+  obtain ⟨I, hset, _, _⟩ := getReps_loop (P := P) hp r hl (rinv_empty P eq wc)
+  refine ⟨fun x hx => ?_, fun x hx => ?_⟩
+  · have hm : x ∈ r.map (·.1) := (Res.has_iff_mem r x).1 (all x hx)
+    obtain ⟨e, he, rfl⟩ := List.mem_map.1 hm
+    obtain ⟨s1, s2⟩ := hset e he
+    unfold getReps repGet
+    cases h1 : (List.foldl (repStep P) ⟨Tab.empty, Tab.empty⟩ r).eqRep.get e.1 with
+    | none => exact absurd h1 s1
+    | some v =>
+      cases h2 : (List.foldl (repStep P) ⟨Tab.empty, Tab.empty⟩ r).wcRep.get e.1 with
+      | none => exact absurd h2 s2
+      | some w => exact ⟨(I.eqv _ _ h1).2, (I.wcv _ _ h2).2⟩
+  · unfold getReps repGet
+    constructor
+    · cases h1 : (List.foldl (repStep P) ⟨Tab.empty, Tab.empty⟩ r).eqRep.get x with
+      | none => rfl
+      | some v => exact absurd (I.eqv _ _ h1).1 hx
+    · cases h2 : (List.foldl (repStep P) ⟨Tab.empty, Tab.empty⟩ r).wcRep.get x with
+      | none => rfl
+      | some v => exact absurd (I.wcv _ _ h2).1 hx
+
+/-! ## `dump` and the whole of `finish` -/
+
+theorem foldl_max_spec (k : Nat) (ks : List Nat) :
+    (ks.foldl max k ∈ k :: ks) ∧ ∀ y ∈ k :: ks, y ≤ ks.foldl max k := by
+  induction ks generalizing k with
+  | nil => simp
+  | cons a ks ih =>
+    simp only [List.foldl_cons]
+    obtain ⟨h1, h2⟩ := ih (max k a)
+    constructor
+    · rcases List.mem_cons.1 h1 with h | h
+      · rw [h]
+        by_cases hka : k ≤ a
+        · rw [Nat.max_eq_right hka]; simp
+        · rw [Nat.max_eq_left (by omega)]; simp
+      · exact List.mem_cons_of_mem _ (List.mem_cons_of_mem _ h)
+    · intro y hy
+      rcases List.mem_cons.1 hy with rfl | hy
+      · exact Nat.le_trans (Nat.le_max_left _ _) (h2 _ List.mem_cons_self)
+      · rcases List.mem_cons.1 hy with rfl | hy
+        · exact Nat.le_trans (Nat.le_max_right _ _) (h2 _ List.mem_cons_self)
+        · exact h2 y (List.mem_cons_of_mem _ hy)
+
+/-- the seeded constraints satisfy the documented precondition of `propagate_constraints` and every key
+    carries a code -/
+structure Cons.WF (tbl : CodeTable) (c : Cons) : Prop where
+  pre : Pre (adjOf c.keys c.eq) (adjOf c.keys c.wc)
+  codes : ∀ x ∈ c.keys, ∃ ch, c.st.get x = some ch ∧ tbl.isCode ch = true
+  stKeys : ∀ x, c.st.get x ≠ none → x ∈ c.keys
+
+theorem keys_adjOf (ks : List Nat) (t : Tab (List Nat)) : keys (adjOf ks t) = ks := by
+  unfold keys adjOf
+  rw [List.map_map]
+  conv => rhs; rw [← List.map_id ks]
+  apply List.map_congr_left
+  intro a _; rfl
+
+/-- the arrays are exactly what the closure of the seeded graph demands -/
+structure GraphExact (tbl : CodeTable) (c : Cons) (P : Nat) (a : Arrays) : Prop where
+  n_pos : 0 < a.1.length
+  len_wc : a.2.1.length = a.1.length
+  len_st : a.2.2.length = a.1.length
+  last : a.1.length - 1 ∈ c.keys
+  le_P : a.1.length ≤ P
+  bound : ∀ x ∈ c.keys, x < P → x < a.1.length
+  blank : ∀ i, i < a.1.length → i ∉ c.keys → a.1[i]? = some none ∧ a.2.1[i]? = some none ∧ a.2.2[i]? = some none
+  key : ∀ i, i < a.1.length → i ∈ c.keys →
+    (∃ v, a.1[i]? = some v ∧ IsMin P (Reach (adjOf c.keys c.eq) (adjOf c.keys c.wc) i false) v) ∧
+    (∃ w, a.2.1[i]? = some w ∧ IsMin P (Reach (adjOf c.keys c.eq) (adjOf c.keys c.wc) i true) w) ∧
+    (∃ ch, a.2.2[i]? = some (some ch) ∧ tbl.isCode ch = true ∧
+      ∀ b, hasB (tbl.maskC ch) b ↔ Common tbl (adjOf c.keys c.eq) (adjOf c.keys c.wc) c.st i b)
+  noself : ∀ x ∈ c.keys, ¬ Reach (adjOf c.keys c.eq) (adjOf c.keys c.wc) x true x
+
+/-- every class has a common base and no item is its own partner -/
+def GraphSat (tbl : CodeTable) (c : Cons) : Prop :=
+  ∀ x ∈ c.keys, ¬ Reach (adjOf c.keys c.eq) (adjOf c.keys c.wc) x true x ∧
+    ∃ b, Common tbl (adjOf c.keys c.eq) (adjOf c.keys c.wc) c.st x b
+
+/-- **The part of `get_constraints` after the seeding.**  Under the precondition it either reports an
+    over-constrained class (and then the seeded graph really has one), or has no position to number (and then
+    the graph is satisfiable), or returns exactly the closure. -/
+theorem finish_spec {tbl : CodeTable} (hl : tbl.lawful = true) {c : Cons} (P : Nat) (wf : c.WF tbl) :
+    (finish tbl P c = .error .overconstrained ∧ ¬ GraphSat tbl c) ∨
+    (finish tbl P c = .error .noPositions ∧ GraphSat tbl c ∧ ∀ x ∈ c.keys, ¬ x < P) ∨
+    (∃ a, finish tbl P c = .ok a ∧ GraphSat tbl c ∧ GraphExact tbl c P a) := by
+  have hk : keys (adjOf c.keys c.eq) = c.keys := keys_adjOf _ _
+  obtain ⟨r, hr, inv, all⟩ := propagate_ok wf.pre
+  have hn := nodup_propagate hr
+  have C : Ctx tbl (adjOf c.keys c.eq) (adjOf c.keys c.wc) r c.st :=
+    ⟨hl, wf.pre, inv, all, by rw [hk]; exact wf.codes⟩
+  rcases propagateTemplates_spec C with ⟨st', e1, hval, hkeep⟩ | ⟨e1, x, hx, hbad⟩
+  · rw [hk] at e1 hval hkeep
+    have hsat : GraphSat tbl c := by
+      intro x hx
+      obtain ⟨h1, ch, _, hcode, hb⟩ := hval x hx
+      refine ⟨h1, ?_⟩
+      obtain ⟨b, hbb⟩ := (mask_ne_zero_iff (maskC_lt16 tbl ch)).1
+        (Nat.pos_iff_ne_zero.1 (CodeTable.maskC_pos hl hcode).1)
+      exact ⟨b, (hb b).1 hbb⟩
+    obtain ⟨hrep, hrepn⟩ := getReps_spec (P := P) wf.pre inv all hn (by rw [hk]; exact fun x hx => (hval x hx).1)
+    rw [hk] at hrep hrepn
+    have hmem : ∀ x, x ∈ (r.map (·.1)).filter (· < P) ↔ x ∈ c.keys ∧ x < P := by
+      intro x
+      simp only [List.mem_filter, decide_eq_true_eq]
+      rw [← Res.has_iff_mem]
+      constructor
+      · rintro ⟨h1, h2⟩; exact ⟨hk ▸ inv.isKey x h1, h2⟩
+      · rintro ⟨h1, h2⟩; exact ⟨all x (by rw [hk]; exact h1), h2⟩
+    cases hf : (r.map (·.1)).filter (· < P) with
+    | nil =>
+      right; left
+      refine ⟨by simp [finish, hr, e1, dump, hf], hsat, fun x hx hxP => ?_⟩
+      have := (hmem x).2 ⟨hx, hxP⟩
+      rw [hf] at this
+      simp at this
+    | cons k ks =>
+      right; right
+      obtain ⟨hmax1, hmax2⟩ := foldl_max_spec k ks
+      have hmk : ks.foldl max k ∈ c.keys ∧ ks.foldl max k < P := (hmem _).1 (hf ▸ hmax1)
+      refine ⟨((List.range (ks.foldl max k + 1)).map (repGet (getReps P r).eqRep),
+               (List.range (ks.foldl max k + 1)).map (repGet (getReps P r).wcRep),
+               (List.range (ks.foldl max k + 1)).map st'.get), by simp [finish, hr, e1, dump, hf], hsat, ?_⟩
+      constructor
+      · simp
+      · simp
+      · simp
+      · simpa using hmk.1
+      · simp; omega
+      · intro x hx hxP
+        have := hmax2 x (hf ▸ (hmem x).2 ⟨hx, hxP⟩)
+        simp; omega
+      · intro i hi hnk
+        simp only [List.length_map, List.length_range] at hi
+        obtain ⟨h1, h2⟩ := hrepn i hnk
+        have h3 : st'.get i = none := by
+          rw [hkeep i hnk]
+          cases h : c.st.get i with
+          | none => rfl
+          | some v => exact absurd (wf.stKeys i (by simp [h])) hnk
+        simp [List.getElem?_map, List.getElem?_range hi, h1, h2, h3]
+      · intro i hi hik
+        simp only [List.length_map, List.length_range] at hi
+        obtain ⟨h1, h2⟩ := hrep i hik
+        obtain ⟨_, ch, hch, hcode, hb⟩ := hval i hik
+        refine ⟨⟨_, by simp [List.getElem?_map, List.getElem?_range hi], h1⟩,
+                ⟨_, by simp [List.getElem?_map, List.getElem?_range hi], h2⟩,
+                ⟨ch, by simp [List.getElem?_map, List.getElem?_range hi, hch], hcode, hb⟩⟩
+      · exact fun x hx => (hsat x hx).1
+  · left
+    rw [hk] at e1 hx
+    refine ⟨by simp [finish, hr, e1], fun hsat => ?_⟩
+    obtain ⟨h1, b, hb⟩ := hsat x hx
+    rcases hbad with h | h
+    · exact h1 h
+    · exact h b hb
+
+/-! ## the seeding establishes the precondition -/
+
+/-- state of the three dicts while the `init` calls run -/
+structure InitInv (c : Cons) : Prop where
+  nodup : c.keys.Nodup
+  eqv : ∀ k, c.eq.get k = if k ∈ c.keys then some [] else none
+  wcv : ∀ k, c.wc.get k = if k ∈ c.keys then some [] else none
+  stv : ∀ k, c.st.get k ≠ none → k ∈ c.keys
+
+theorem initAll_spec (l : List (Nat × Char)) {c c' : Cons} (I : InitInv c) (h : initAll l c = .ok c') :
+    InitInv c' ∧ c'.keys = c.keys ++ l.map (·.1) ∧
+    (∀ p ∈ l, c'.st.get p.1 = some p.2) ∧ (∀ k, k ∈ c.keys → c'.st.get k = c.st.get k) := by
+  induction l generalizing c with
+  | nil => simp [initAll] at h; subst h; exact ⟨I, by simp, by simp, fun _ _ => rfl⟩
+  | cons a l ih =>
+    obtain ⟨x, letter⟩ := a
+    simp only [initAll] at h
+    split at h
+    · cases h
+    · rename_i hfresh
+      simp only [Bool.or_eq_true, not_or, Bool.not_eq_true] at hfresh
+      have hx : x ∉ c.keys := by
+        intro hx
+        have := I.eqv x
+        simp [hx] at this
+        simp [Tab.has, this] at hfresh
+      have I1 : InitInv ⟨c.keys ++ [x], c.eq.set x [], c.wc.set x [], c.st.set x letter⟩ := by
+        constructor
+        · exact List.nodup_append.2 ⟨I.nodup, by simp, by
+            intro a ha b hb; simp at hb; subst hb; exact fun e => hx (e ▸ ha)⟩
+        · intro k
+          simp only [Tab.get_set, List.mem_append, List.mem_singleton]
+          by_cases hk : k = x
+          · simp [hk]
+          · simp [hk, I.eqv k]
+        · intro k
+          simp only [Tab.get_set, List.mem_append, List.mem_singleton]
+          by_cases hk : k = x
+          · simp [hk]
+          · simp [hk, I.wcv k]
+        · intro k hk
+          simp only [Tab.get_set] at hk
+          simp only [List.mem_append, List.mem_singleton]
+          by_cases hkx : k = x
+          · exact Or.inr hkx
+          · simp only [hkx, if_false] at hk; exact Or.inl (I.stv k hk)
+      obtain ⟨I2, hk2, hst2, hkeep2⟩ := ih I1 h
+      refine ⟨I2, by simp [hk2], ?_, ?_⟩
+      · intro p hp
+        rcases List.mem_cons.1 hp with rfl | hp
+        · rw [hkeep2 _ (by simp)]; simp [Tab.get_set]
+        · exact hst2 p hp
+      · intro k hk
+        rw [hkeep2 k (by simp [hk])]
+        simp only [Tab.get_set]
+        have : k ≠ x := fun e => hx (e ▸ hk)
+        simp [this]
+
+theorem addLink_spec {t t' : Tab (List Nat)} {x y : Nat} (h : addLink t x y = .ok t') :
+    (t.get x).isSome = true ∧ (t.get y).isSome = true ∧
+    (∀ k, (t'.get k).isSome = (t.get k).isSome) ∧
+    ∀ k z, z ∈ (t'.get k).getD [] ↔ z ∈ (t.get k).getD [] ∨ (k = x ∧ z = y) ∨ (k = y ∧ z = x) := by
+  unfold addLink at h
+  cases hx : t.get x with
+  | none => simp [hx] at h
+  | some lx =>
+    simp only [hx] at h
+    cases hy : (t.set x (lx ++ [y])).get y with
+    | none => simp [hy] at h
+    | some ly =>
+      simp only [hy, Except.ok.injEq] at h
+      subst h
+      have hy0 : (t.get y).isSome = true := by
+        rw [Tab.get_set] at hy
+        split at hy
+        · rename_i e; rw [e, hx]; rfl
+        · rw [hy]; rfl
+      refine ⟨rfl, hy0, ?_, ?_⟩
+      · intro k
+        simp only [Tab.get_set]
+        by_cases h1 : k = y
+        · subst h1; simp [hy0]
+        · by_cases h2 : k = x
+          · subst h2; simp [h1, hx]
+          · simp [h1, h2]
+      · intro k z
+        simp only [Tab.get_set]
+        rw [Tab.get_set] at hy
+        by_cases h1 : k = y
+        · subst h1
+          by_cases h2 : k = x
+          · subst h2
+            simp only [if_true, Option.some.injEq] at hy
+            subst hy
+            simp [hx]
+          · simp only [h2, if_false] at hy
+            simp [hy, h2]
+        · by_cases h2 : k = x
+          · subst h2
+            simp [h1, hx]
+          · simp [h1, h2]
+
+theorem addLinks_spec (edges : List (Nat × Nat)) {t t' : Tab (List Nat)} (h : addLinks edges t = .ok t') :
+    (∀ e ∈ edges, (t.get e.1).isSome = true ∧ (t.get e.2).isSome = true) ∧
+    (∀ k, (t'.get k).isSome = (t.get k).isSome) ∧
+    ∀ k z, z ∈ (t'.get k).getD [] ↔ z ∈ (t.get k).getD [] ∨ (k, z) ∈ edges ∨ (z, k) ∈ edges := by
+  induction edges generalizing t with
+  | nil => simp [addLinks] at h; subst h; simp
+  | cons a l ih =>
+    obtain ⟨x, y⟩ := a
+    simp only [addLinks] at h
+    cases h1 : addLink t x y with
+    | error e => simp [h1] at h
+    | ok t1 =>
+      simp only [h1] at h
+      obtain ⟨hx, hy, hs1, hm1⟩ := addLink_spec h1
+      obtain ⟨he2, hs2, hm2⟩ := ih h
+      refine ⟨?_, fun k => by rw [hs2, hs1], ?_⟩
+      · intro e he
+        rcases List.mem_cons.1 he with rfl | he
+        · exact ⟨hx, hy⟩
+        · have := he2 e he
+          rw [hs1, hs1] at this
+          exact this
+      · intro k z
+        rw [hm2, hm1]
+        simp only [List.mem_cons, Prod.mk.injEq]
+        constructor
+        · rintro ((h | h | h) | h | h)
+          · exact Or.inl h
+          · exact Or.inr (Or.inl (Or.inl h))
+          · exact Or.inr (Or.inr (Or.inl ⟨h.2, h.1⟩))
+          · exact Or.inr (Or.inl (Or.inr h))
+          · exact Or.inr (Or.inr (Or.inr h))
+        · rintro (h | (h | h) | (h | h))
+          · exact Or.inl (Or.inl h)
+          · exact Or.inl (Or.inr (Or.inl h))
+          · exact Or.inr (Or.inl h)
+          · exact Or.inl (Or.inr (Or.inr ⟨h.2, h.1⟩))
+          · exact Or.inr (Or.inr h)
+
+theorem nb_adjOf (ks : List Nat) (t : Tab (List Nat)) (x : Nat) :
+    nb (adjOf ks t) x = if x ∈ ks then (t.get x).getD [] else [] := by
+  unfold nb adjOf
+  induction ks with
+  | nil => simp
+  | cons a ks ih =>
+    simp only [List.map_cons, List.lookup_cons, List.mem_cons]
+    by_cases h : x = a
+    · subst h; simp
+    · have : (x == a) = false := by simpa using h
+      simp only [this, h, false_or]
+      exact ih
+
+/-- what `build` produces: keys, link sets and templates as seeded, and the precondition of `propagate` -/
+theorem build_spec {tbl : CodeTable} {s : Seeds} {c : Cons} (h : build s = .ok c)
+    (hcodes : ∀ p ∈ s.inits, tbl.isCode p.2 = true) :
+    c.WF tbl ∧ c.keys = s.inits.map (·.1) ∧ c.keys.Nodup ∧
+    (∀ p ∈ s.inits, c.st.get p.1 = some p.2) ∧
+    (∀ x y, y ∈ nb (adjOf c.keys c.eq) x ↔ (x, y) ∈ s.eqE ∨ (y, x) ∈ s.eqE) ∧
+    (∀ x y, y ∈ nb (adjOf c.keys c.wc) x ↔ (x, y) ∈ s.wcE ∨ (y, x) ∈ s.wcE) := by
+  unfold build at h
+  cases h0 : initAll s.inits ⟨[], Tab.empty, Tab.empty, Tab.empty⟩ with
+  | error e => simp [h0] at h
+  | ok c0 =>
+    simp only [h0] at h
+    have I0 : InitInv ⟨[], Tab.empty, Tab.empty, Tab.empty⟩ :=
+      ⟨by simp, by simp [Tab.get_empty], by simp [Tab.get_empty], by simp [Tab.get_empty]⟩
+    obtain ⟨I, hkeys, hst, _⟩ := initAll_spec s.inits I0 h0
+    simp only [List.nil_append] at hkeys
+    cases h1 : addLinks s.eqE c0.eq with
+    | error e => simp [h1] at h
+    | ok eq1 =>
+      simp only [h1] at h
+      cases h2 : addLinks s.wcE c0.wc with
+      | error e => simp [h2] at h
+      | ok wc1 =>
+        simp only [h2, Except.ok.injEq] at h
+        subst h
+        obtain ⟨he1, hs1, hm1⟩ := addLinks_spec s.eqE h1
+        obtain ⟨he2, hs2, hm2⟩ := addLinks_spec s.wcE h2
+        have isKeyE : ∀ k, (c0.eq.get k).isSome = true → k ∈ c0.keys := by
+          intro k hk; rw [I.eqv k] at hk; by_cases hm : k ∈ c0.keys; exact hm; simp [hm] at hk
+        have isKeyW : ∀ k, (c0.wc.get k).isSome = true → k ∈ c0.keys := by
+          intro k hk; rw [I.wcv k] at hk; by_cases hm : k ∈ c0.keys; exact hm; simp [hm] at hk
+        have e0 : ∀ k, (c0.eq.get k).getD [] = [] := by
+          intro k; rw [I.eqv k]; split <;> rfl
+        have w0 : ∀ k, (c0.wc.get k).getD [] = [] := by
+          intro k; rw [I.wcv k]; split <;> rfl
+        have nbE : ∀ x y, y ∈ nb (adjOf c0.keys eq1) x ↔ (x, y) ∈ s.eqE ∨ (y, x) ∈ s.eqE := by
+          intro x y
+          rw [nb_adjOf]
+          by_cases hx : x ∈ c0.keys
+          · simp only [hx, if_true, hm1, e0]; simp
+          · simp only [hx, if_false]
+            constructor
+            · intro hh; cases hh
+            · rintro (hh | hh)
+              · exact absurd (isKeyE x (he1 _ hh).1) hx
+              · exact absurd (isKeyE x (he1 _ hh).2) hx
+        have nbW : ∀ x y, y ∈ nb (adjOf c0.keys wc1) x ↔ (x, y) ∈ s.wcE ∨ (y, x) ∈ s.wcE := by
+          intro x y
+          rw [nb_adjOf]
+          by_cases hx : x ∈ c0.keys
+          · simp only [hx, if_true, hm2, w0]; simp
+          · simp only [hx, if_false]
+            constructor
+            · intro hh; cases hh
+            · rintro (hh | hh)
+              · exact absurd (isKeyW x (he2 _ hh).1) hx
+              · exact absurd (isKeyW x (he2 _ hh).2) hx
+        refine ⟨⟨?_, ?_, I.stv⟩, hkeys, I.nodup, hst, nbE, nbW⟩
+        · constructor
+          · rw [keys_adjOf, keys_adjOf]
+          · rw [keys_adjOf]; exact I.nodup
+          · intro y z hz
+            rw [keys_adjOf]
+            rcases (nbE y z).1 hz with hh | hh
+            · exact isKeyE z (he1 _ hh).2
+            · exact isKeyE z (he1 _ hh).1
+          · intro y z hz
+            rw [keys_adjOf]
+            rcases (nbW y z).1 hz with hh | hh
+            · exact isKeyW z (he2 _ hh).2
+            · exact isKeyW z (he2 _ hh).1
+          · intro y z hz
+            rw [nbE] at hz ⊢
+            exact hz.symm
+          · intro y z hz
+            rw [nbW] at hz ⊢
+            exact hz.symm
+        · intro x hx
+          rw [hkeys] at hx
+          obtain ⟨p, hp, rfl⟩ := List.mem_map.1 hx
+          exact ⟨p.2, hst p hp, hcodes p hp⟩
+
 end Pepper.ConstraintGen
